@@ -1,0 +1,19 @@
+//go:build verif
+
+package stackage
+
+/*
+verifHook, when set by a verification harness, is invoked at the
+three lock points of a mutex-enabled stack: "lock.want" (just
+before the mutex is acquired), "lock.held" (just after) and
+"lock.released" (just after it is released). It allows a
+cooperative scheduler to enumerate or replay interleavings
+deterministically. This file is only compiled with -tags verif.
+*/
+var verifHook func(point string, r *stack)
+
+func verifPoint(point string, r *stack) {
+	if h := verifHook; h != nil {
+		h(point, r)
+	}
+}
